@@ -6,7 +6,7 @@ PROP = {
              "latency of each predicate call); the real StateChangeWatcher runs it on an auto-advancing virtual clock. Exhaustive unit: "
              "all scripts of length 0..10 (quick) / 0..12 (thorough) x N in 1..4 x period {0,1,3,7}s x interval {0,1,2}s x cool-down "
              "{0,2,5}s x latency {1ms,1s}; random unit: run-structured scripts up to 200 observations, wider settings incl. the shipped "
-             "defaults (5, 7s, 1s, 300s), per-observation latencies; wiring unit: the real NewDiagnosisFailsafeStateChangeWatcher with a "
+             "defaults (5, 7s, 1s, 300s), per-observation latencies; wiring unit (N up to 12, the four settings written plain or zero-padded to 2-4 digits in the environment): the real NewDiagnosisFailsafeStateChangeWatcher with a "
              "real TxnPoliciesAccessor and scripted HAProxy statistics. A case is non-trivial when the script contains a qualifying run "
              "that produced (or, by the completeness clause, had to produce) a reaction and a non-qualifying flip (a run that starts "
              "with a state change and has < N observations or spans < the stable period under every reading); distinct = distinct "
